@@ -67,7 +67,15 @@ SPEC = {
     'input shapes are outside the model; probe_jit_shape_dependent_draws in the evidence records what the code does)',
     'NNX streams inside nnx.vmap: every lane makes the same calls (counts of a split stream stay uniform)',
   ],
-  'model_partial': [],
+  'model_partial': [
+    'no theorem is named _partial. Scope of the closed-form Linen theorems: linen_key_is_function_of_position / unrelated_edits_inert / '
+    'fallback_params / no_reuse_within_run(_without_separator) quantify over nn.jit-free programs; for programs with (nested) nn.jit the '
+    'proved statements are linen_counters_are_path_addressed (refinement to the path-addressed semantics specProg) and '
+    'no_reuse_within_run_jit (separator on, seeds are key atoms); an inertness theorem in closed form for jit programs is not stated',
+    'replay_preserves_aliasing / rerun_equals_first_run are proved on the counter-heap model CHeap (cells addressed by (root id, path), '
+    'links parent-entry -> cell), which is a separate small model next to Store; it is tied to the code by check_jit_alias and the '
+    'linen rerun oracle, not by a Lean refinement to runProg',
+  ],
 }
 
 FALLBACK_LINEN = 'params'
@@ -1375,6 +1383,47 @@ def _check_jit_counters(ctx, drv, case, got_hist):
   return True
 
 
+def check_jit_alias(ctx, drv, case):
+  """Ties the counter-heap model (CHeap: replay on a jit cache hit is an in-place write, theorem replay_preserves_aliasing) to
+  the code.  A setup-style module whose child `k` is bound before a jit-ted method draws `m` times in it; afterwards the
+  bound child draws once outside the jit-ted method and the count folded into that key tells which counter it read.  Run 1
+  traces, run 2 (same class, same seeds) hits the jit cache."""
+  sep, seeds, m, s = case['sep'], case['seeds'], case['m'], case['stream']
+  body = [['jit', [['sub', 'k', [['draw', s]] * m]]], ['sub', 'k', [['draw', s]]]]
+  present = [r[0] for r in seeds]
+  eff = s if s in present else FALLBACK_LINEN
+  seedrow = next(r for r in seeds if r[0] == eff)
+  base = seed_key(seedrow[2], seedrow[1])
+
+  def key_at(j):
+    pre = (b'\0' if sep else b'') + b'k' + (b'\0' if sep else b'') + nat_bytes(j)
+    return kd(jax.random.fold_in(base, np.uint32(int.from_bytes(hashlib.sha1(pre).digest()[:4], 'big'))))
+
+  table = {key_at(j): j for j in range(1, 40)}
+  with sep_flag(sep):
+    runner = LinenRunner('setup', [body], 'apply')
+    runs = [runner.run(seeds), runner.run(seeds)]
+  ctx.case(case, nontrivial=True)
+  ctx.count('jit_alias_tie', 'checked')
+  observed = []
+  for g in runs:
+    if g[0] != 'ok' or g[1][-1] not in table:
+      ctx.violation('jit-alias-unreadable', f'cannot read the counter of the bound child after the jit-ted call: {str(g)[:200]}', case)
+      return False
+    observed.append(table[g[1][-1]] - 1)
+  (mo,) = drv.run([('cheap_hit', [[[['k'], eff]] * m, ['k'], eff])])
+  want = [mo[1]['trace'], mo[1]['hit']]
+  if runs[0] != runs[1]:
+    hint = ' (the bound child reads the count predicted for a replay by dict.update: the replay did not write in place)' if observed == [mo[1]['trace'], mo[1]['hit_update']] else ''
+    ctx.violation('jit-cache-hit-differs-from-traced-run', f'bound child counter after the jit-ted call: traced run {observed[0]}, cache-hit run {observed[1]}{hint}', case)
+    return False
+  if observed != want:
+    ctx.disagreements_checked += 1
+    ctx.violation('jit-alias-model-mismatch', f'bound child counter after the jit-ted call: observed {observed}, CHeap model {want}', case, concrete=False)
+    return False
+  return True
+
+
 def gen_jit_history(rng):
   seeds = gen_seeds(rng)
   present = [s[0] for s in seeds]
@@ -1522,6 +1571,8 @@ def _run_case(ctx, drv, obj, rng=None):
     check_jit_history(ctx, drv, case)
   elif kind == 'nnx-stream':
     check_stream_history(ctx, drv, case)
+  elif kind == 'jit-alias':
+    check_jit_alias(ctx, drv, case)
   elif kind == 'probe-jit-shape':
     probe_shape_dependent_jit(ctx)
   elif kind == 'probe-separator-nul':
@@ -1661,6 +1712,9 @@ def run(ctx):
   for c in jit_cases:
     check_jit_history(ctx, drv, c, mouts=mine())
   ctx.sample(jit_cases[0])
+  for _ in range(4 if not thorough else 40):
+    sd = gen_seeds(rng)
+    check_jit_alias(ctx, drv, {'kind': 'jit-alias', 'sep': rng.random() < 0.5, 'seeds': sd, 'm': rng.randrange(1, 4), 'stream': rng.choice([r[0] for r in sd] + ['x'] if any(r[0] == FALLBACK_LINEN for r in sd) else [r[0] for r in sd])})
   probe_shape_dependent_jit(ctx)
   probe_separator_count_nul(ctx)
   lap('jit_histories')
